@@ -40,6 +40,17 @@ for i in range(1, 21):
     out += txt + '\n\n'
 out += rd('90-tail.md').replace('{{SEEDED_TABLE}}', rd('seeded.md'))
 out += '\n' + rd('appendix.md')
+# hunt statistics from the dispositions
+import glob as _glob, re as _re
+_disp = [open(f).read().strip().split('\n')[0].lower() for f in sorted(_glob.glob(os.path.join(ROOT, 'hunted', 'C*-*', 'disposition.txt')))]
+_n = lambda *pre: sum(1 for d in _disp if any(d.startswith(x) for x in pre))
+_hunt = {'{{HUNT_TOTAL}}': len(_disp), '{{HUNT_FIXED}}': _n('fixed', 'partly fixed'), '{{HUNT_OPEN}}': _n('open finding', 'known open'), '{{HUNT_DUP}}': _n('duplicate'),
+         '{{HUNT_DISMISSED}}': _n('dismissed', 'not judged', 'not a finding', 'not a violation'), '{{HUNT2_COUNT}}': len(_disp) - 136}
+_rest = len(_disp) - sum(v for k, v in _hunt.items() if k not in ('{{HUNT_TOTAL}}', '{{HUNT2_COUNT}}'))
+if _rest:
+    print('note: %d dispositions not classified' % _rest)
+for k, v in _hunt.items():
+    out = out.replace(k, str(v))
 for k, v in {'{{NTOTAL}}': len(ents), '{{NOPEN}}': nopen, '{{NFIXED}}': len(ents) - nopen, '{{NFIXCOMMITS}}': nfix}.items():
     out = out.replace(k, str(v))
 open(os.path.join(ROOT, 'DESIGN.md'), 'w').write(out)
